@@ -152,7 +152,7 @@ def tlc_stage(ctx):
 
     t_mc = threading.Thread(target=job, args=("mc", "Access.mc.cfg"), kwargs=dict(workers=4, coverage=True, timeout=900, heap="3g"))
     t_mc.start()
-    job("clients", "Access.clients.cfg", workers=2, timeout=600, heap="3g")
+    job("clients", "Access.clients.cfg", workers=4, timeout=600, heap="3g")
     job("hosts", "Access.hosts.cfg", workers=2, timeout=300, heap="2g")
     return res, errs, t_mc
 
@@ -295,22 +295,25 @@ def trace_disagreements(ctx, rows, verdict):
 
 
 def run(ctx):
+    # Direction B needs no vectors: it runs beside the TLC stage and direction A.
+    box = {}
+    t_tr = threading.Thread(target=run_trace, args=(ctx, box))
+    t_tr.start()
     res, errs, t_mc = tlc_stage(ctx)
     if errs:
         t_mc.join()
+        t_tr.join()
         raise errs[0]
     universe, cfgs = build_input(ctx, res)
     if len(cfgs) < 5000:
         t_mc.join()
+        t_tr.join()
         raise vlib.Inconclusive("too few configurations: %d" % len(cfgs))
-
-    # Direction B runs beside direction A.
-    box = {}
-    t_tr = threading.Thread(target=run_trace, args=(ctx, box))
-    t_tr.start()
-    rows, summ = run_replay(ctx, universe, cfgs)
-    t_tr.join()
-    t_mc.join()
+    try:
+        rows, summ = run_replay(ctx, universe, cfgs)
+    finally:
+        t_tr.join()
+        t_mc.join()
     if errs:
         raise errs[0]
     if "err" in box:
@@ -394,18 +397,25 @@ def replay(ctx, path):
     stored = json.load(open(path))["record"]
     if "row" in stored:
         r = stored["row"]
-        step = {"conc": r["conc"], "req": r["req"]}
-        want = r["want"]
-        if r["req"].get("level") == "transport" and r["areq"]["form"] == "mapped" and r["req"]["proto"] != "https":
-            step["req"] = dict(r["req"])
+        step = {"conc": dict(r["conc"]), "req": r["req"]}
+        want = [str(w) for w in r["want"]]
     else:
-        step = {"conc": stored["set"]["conc"], "req": stored["line"]["req"]}
-        want = ["(whatever TraceAccess.tla admits; rejected outcome was %s)" % stored["line"]["out"]]
+        step = {"conc": dict(stored["set"]["conc"]), "req": stored["line"]["req"]}
+        want = None
     for k in ("allowed", "disallowed", "hosts"):
         step["conc"][k] = step["conc"].get(k) or []
     one = run_one(ctx, [step], "replay")[0]
-    print(json.dumps({"lists": step["conc"], "request": step["req"], "expected": want, "observed": one.get("out"),
-                      "observers_moved": one.get("d")}, indent=1))
-    if "row" in stored:
-        return 0 if str(one.get("out")) in [str(w) for w in want] else 1
-    return 1 if one.get("out") == stored["line"]["out"] else 0
+    out, d = str(one.get("out")), one.get("d")
+    eff = 1 if out == "served" and step["req"].get("level") == "transport" else 0
+    obs_ok = d is None or all(v == eff for v in d.values())
+    if want is not None:
+        expected = {"outcome": want, "observers_moved_by": "1 each iff served through a transport, else 0"}
+        bad = out not in want or not obs_ok
+    else:
+        # A stored trace line: the verdict on the outcome is TraceAccess.tla's;
+        # the replay shows whether the rejected outcome repeats.
+        expected = {"outcome": "anything but the rejected %r (see the stored line and set)" % stored["line"]["out"]}
+        bad = out == stored["line"]["out"]
+    print(json.dumps({"lists": step["conc"], "request": step["req"], "expected": expected, "observed": out,
+                      "observers_moved": d, "reproduced": bad}, indent=1))
+    return 1 if bad else 0
